@@ -4,6 +4,7 @@ CONSTANTS
   G = {1, 2}
   SizeRange = {1, 2}
   CAS = FALSE
-  Emit = FALSE
+  Retries = 0
+  Emit = "none"
 VIEW view
 INVARIANTS TypeOK ExactAtQuiescence
